@@ -115,11 +115,38 @@ for trial in range(%d):
             n += 1
             if abs(Caching3D(f3, (lo, hi, lo, hi, lo, hi), (0.4, 0.4, 0.4))(*p) - v) > 1e-9 * (1 + abs(v)): bad.append(("3d-history", trial))
             if abs(v - f3(*p)) > 1e-6 * (1 + abs(v)): bad.append(("3d-trilinear", trial))
+    # the function_boundaries option (estimate of the function's range used for normalisation): enclosing, too narrow, absent
+    for fb in ((-50.0, 50.0), (0.1, 0.2), (-0.3, 0.4)):
+        G0 = Caching1D(g1, (lo, hi), res)
+        Gf = Caching1D(g1, (lo, hi), res, function_boundaries=fb)
+        vals = [Gf(p) for p in pts]
+        for p, v in zip(reversed(pts), reversed(vals)):
+            n += 1
+            w = Caching1D(g1, (lo, hi), res, function_boundaries=fb)(p)
+            if abs(w - v) > 1e-7 * (1 + abs(v)): bad.append(("1d-history-function_boundaries", trial, fb))
+            if abs(v - g1(p)) > 1e-6 * (1 + abs(v)): bad.append(("1d-linear-function_boundaries", trial, fb))
+        g2 = lambda x, y: a + b * x + c * y
+        Bf = Caching2D(g2, (lo, hi, lo, hi), (res, res), function_boundaries=fb)
+        v2 = [Bf(*p) for p in p2]
+        for p, v in zip(reversed(p2), reversed(v2)):
+            n += 1
+            w = Caching2D(g2, (lo, hi, lo, hi), (res, res), function_boundaries=fb)(*p)
+            if abs(w - v) > 1e-7 * (1 + abs(v)): bad.append(("2d-history-function_boundaries", trial, fb))
+            if abs(v - g2(*p)) > 1e-6 * (1 + abs(v)): bad.append(("2d-linear-function_boundaries", trial, fb))
+        if trial %% 5 == 0:
+            g3 = lambda x, y, z: a + b * x + c * y - z
+            Cf = Caching3D(g3, (lo, hi, lo, hi, lo, hi), (0.4, 0.4, 0.4), function_boundaries=fb)
+            v3 = [Cf(*p) for p in p3]
+            for p, v in zip(reversed(p3), reversed(v3)):
+                n += 1
+                w = Caching3D(g3, (lo, hi, lo, hi, lo, hi), (0.4, 0.4, 0.4), function_boundaries=fb)(*p)
+                if abs(w - v) > 1e-7 * (1 + abs(v)): bad.append(("3d-history-function_boundaries", trial, fb))
+                if abs(v - g3(*p)) > 1e-6 * (1 + abs(v)): bad.append(("3d-linear-function_boundaries", trial, fb))
 print(json.dumps({"cases": n, "bad": bad[:10]}))
 ''' % (ctx['seed'], n)
     out = run_native(ctx, code, timeout=600)
     return {'name': 'history independence / linear exactness of Caching1D/2D/3D (BOUNDED stand-in, not counted as proved)', 'ok': bool(out) and out.get('bad') == [],
-            'detail': out, 'bound': '%d random functions, 6/4/3 access points each, seed %d' % (n, ctx['seed'])}
+            'detail': out, 'bound': '%d random functions, 6/4/3 access points each, with and without function_boundaries (enclosing / too narrow), seed %d' % (n, ctx['seed'])}
 
 
 BOUNDED = [bounded_history]
